@@ -70,6 +70,8 @@ def run(ctx):
         rest = rest[:info["index"] - 1] + rest[info["index"]:]
     for e in events[:2]:
         ctx.sample({k: (v if k != "times" else v[:20]) for k, v in e.items()})
+    if events:
+        vf.selftest_event(ctx, "RateTrace", dict(events[0], times=[0] * len(events[0]["times"]), stallUs=0), "all probes of an accepted run at the same instant")
     # socket-level tier: --rate wiring of the packet commands (limiter built in startPacketScanEngine), capture timestamps
     n3, rej = wt.run_wire(ctx, select=lambda s: "rate" in s["name"], label="c15w", focus="rate")
     wt.report(ctx, "C15", rej)
